@@ -2,7 +2,7 @@
 # tools/seeded_run.sh <patch.diff> <tier> <ID>...   apply a seeded change to /repo, run the named checks, undo it.
 # Prints per check: id, exit code, first VIOLATION line. Never leaves /repo modified.
 set -u
-patch="$1"; tier="$2"; shift 2
+patch="$(readlink -f "$1")"; tier="$2"; shift 2
 cd "$(dirname "$0")/.."
 if [ -n "$(git -C /repo status --porcelain --untracked-files=no)" ]; then echo "/repo is not clean"; exit 2; fi
 git -C /repo apply "$patch" || { echo "patch does not apply"; exit 2; }
